@@ -24,6 +24,7 @@ func (c *Catalog) AddTag(name, title string) error {
 	}
 
 	t := NewTag(name, title)
+	t.declared = true
 
 	c.Tags.Set(t.Name, t)
 
@@ -99,7 +100,7 @@ func (c *Catalog) tagsFromTagsDirective(d *directive.Directive) ([]*Tag, *jerr.J
 		tn := TagName(name)
 
 		t, ok := c.Tags.Get(tn)
-		if !ok {
+		if !ok || !t.declared {
 			return nil, d.KeywordError(fmt.Sprintf("%s %q", jerr.TagNotFound, tn))
 		}
 
